@@ -223,14 +223,20 @@ def get(self, key, default=None, read=False, expire_time=False, tag=False, retry
     elif expire_time or tag:
         default = (default, None)
     if __Hg_fast__:
-        rows = self._sql(select, (db_key, raw, time.time())).fetchall()
-        if not rows:
-            return default
-        ((rowid, db_expire_time, db_tag, mode, filename, db_value),) = rows
-        try:
-            value = self._disk.fetch(mode, filename, db_value, read)
-        except IOError:
-            return default
+        missing = ENOVAL
+        while True:
+            rows = self._sql(select, (db_key, raw, time.time())).fetchall()
+            if not rows:
+                return default
+            ((rowid, db_expire_time, db_tag, mode, filename, db_value),) = rows
+            try:
+                value = self._disk.fetch(mode, filename, db_value, read)
+            except IOError:
+                if filename == missing:
+                    return default
+                missing = filename
+            else:
+                break
     else:
         cache_hit = __Hq_hit__
         cache_miss = __Hq_miss__
@@ -843,6 +849,12 @@ def emit(ctx):
         if s != want:
             err(node, 'statistics statement is %r, the model knows %r' % (s, want), fname)
     out.append('Definition stats_hit_increment : Z := 1.\nDefinition stats_miss_increment : Z := 1.\n')
+    # the shape of the lock-free path is pinned by the template of get: SELECT; fetch; on IOError SELECT again unless the file that
+    # could not be opened is the one that was already missing the time before; a miss only when a SELECT finds no row (or on that exit)
+    out.append('(* get, lock-free path (template of get): when the value file named by the selected row cannot be opened (the value was\n'
+               '   replaced or removed between the SELECT and the open) the lookup SELECTs again; it returns the default only when a SELECT\n'
+               '   finds no row or when the SAME file is missing twice in a row *)\n'
+               'Definition get_retries_after_missing_file : bool := true.\n')
     sel('contains_select', '__contains__', '__Hq_select__')
     sel('pop_select', 'pop', '__Hq_select__')
     dele('pop_delete', 'pop', '__Hq_delete__')
